@@ -1526,14 +1526,12 @@ func c12Resolution(w *World, r *Report) {
 					if posHere == "" {
 						posHere = w.instrPos(ins)
 					}
-					for _, bb := range fn.Blocks {
+					// the miss edge rejects the input: a diagnostic is recorded behind it, or the routine returns behind it the
+					// complaint that every caller records when it is not empty (diagnosticBlocks)
+					for _, bb := range w.diagnosticBlocks(fn) {
 						if edgeDominates(t.branch, 1-t.presentSucc, bb) {
-							for _, i2 := range bb.Instrs {
-								if isAddSyntaxError(i2) {
-									checked = true
-									checkedHere = true
-								}
-							}
+							checked = true
+							checkedHere = true
 						}
 					}
 				}
@@ -1591,6 +1589,10 @@ var theWorld *World
 
 // c12Placement: the guarded diagnostics under the LengthFieldAttribute test of one field collector, each skipping the field.
 func c12Placement(w *World, vpd *ssa.Function, kinds map[string]bool) {
+	c12PlacementD(w, vpd, kinds, 0)
+}
+
+func c12PlacementD(w *World, vpd *ssa.Function, kinds map[string]bool, depth int) {
 	var lenTestBlock *ssa.BasicBlock
 	for _, b := range vpd.Blocks {
 		iff, ok := b.Instrs[len(b.Instrs)-1].(*ssa.If)
@@ -1603,6 +1605,28 @@ func c12Placement(w *World, vpd *ssa.Function, kinds map[string]bool) {
 		}
 	}
 	if lenTestBlock == nil {
+		// the collector only walks the declarations and hands each field to a routine that accepts or rejects it (a `declare`
+		// method of the record that holds the list): the kind test, the diagnostics and the append are all there - a diagnostic
+		// that does not reach the append in that routine skips the field
+		if depth < 2 {
+			seen := map[*ssa.Function]bool{}
+			forEachInstr(vpd, func(_ *ssa.BasicBlock, ins ssa.Instruction) {
+				c, ok := ins.(*ssa.Call)
+				if !ok {
+					return
+				}
+				g := c.Call.StaticCallee()
+				if g == nil || g == vpd || seen[g] || g.Pkg != w.Parser || g.Blocks == nil {
+					return
+				}
+				for i := range appendsFieldParam(g) {
+					if i < len(c.Call.Args) && isFieldPtr(c.Call.Args[i].Type()) && !seen[g] {
+						seen[g] = true
+						c12PlacementD(w, g, kinds, depth+1)
+					}
+				}
+			})
+		}
 		return
 	}
 	var appendCall ssa.Instruction
